@@ -12,6 +12,9 @@
  *   rx <val> <hex>       the same; <hex> is a valid save text of <val> made by the generator (the oracle expects <val>)
  *   set <i> <a> <b> <s> <c>   obj->setv(...)  (vi, va, vb, vs+vis (static), vc; vo = the object itself)
  *   so <zeros>           save_object("/c16/data/sav", zeros):   so <ret> / file <hex, canonical> (or file none)
+ *   use obj|many         the object the following commands work on (/c16/obj: 7 variables, /c16/many: 24)
+ *   setm a[v0,..]        many->setall(array)
+ *   son <hexname> <zeros> <hexpath>   save_object(name, zeros); prints  so <ret> made=<does <path> exist now>
  *   wf <hex>             write the save file directly
  *   rm                   remove the save file
  *   ro <noclear>         restore_object:  ro <ret> | roerr ;  vars <value of getv()>
@@ -307,6 +310,8 @@ static void pv (sb_t * o, svalue_t * sv, int depth)
       {
         uint64_t bits;
         memcpy (&bits, &sv->u.real, 8);
+        if (sv->u.real != sv->u.real)
+          bits = 0x7ff8000000000000ULL;	/* every NaN prints alike: sign and payload of a computed NaN are the FPU's business */
         snprintf (tmp, sizeof tmp, "f%016llx", (unsigned long long) bits);
         sb_puts (o, tmp);
         break;
@@ -528,6 +533,8 @@ static int c16_apply (const char *fn, int nargs, svalue_t * args, svalue_t * ret
   return rc;
 }
 
+static const char *c16_objpath = "/c16/obj";
+
 static void ensure_obj (void)
 {
   if (c16_ob)
@@ -536,7 +543,7 @@ static void ensure_obj (void)
   save_context (&econ);
   if (!setjmp (econ.context))
     {
-      c16_ob = load_object ("/c16/obj", 0);
+      c16_ob = load_object (c16_objpath, 0);
       pop_context (&econ);
     }
   else
@@ -658,12 +665,14 @@ static void out_file (void)
   free (d);
 }
 
+static const char *c16_savename = SAVE_LPC;
+
 static int call_so (int zeros)
 {
   svalue_t a[2], ret;
   a[0].type = T_STRING;
   a[0].subtype = STRING_MALLOC;
-  a[0].u.string = string_copy (SAVE_LPC, "c16");
+  a[0].u.string = string_copy (c16_savename, "c16");
   a[1].type = T_NUMBER;
   a[1].u.number = zeros;
   int rc = c16_apply ("so", 2, a, &ret);
@@ -849,6 +858,54 @@ static int c16_cmd (char *line)
         vh_out ("seterr");
       return 1;
     }
+  if (!strcmp (tok[0], "use") && n == 2)
+    {
+      /* use obj | many : the object the following commands work on */
+      c16_objpath = !strcmp (tok[1], "many") ? "/c16/many" : "/c16/obj";
+      c16_ob = 0;
+      ensure_obj ();
+      return 1;
+    }
+  if (!strcmp (tok[0], "setm") && n == 2)
+    {
+      svalue_t a, r;
+      char *p = tok[1];
+      ensure_obj ();
+      if (!parse_val (&p, &a) || *p)
+        {
+          vh_out ("badval");
+          return 1;
+        }
+      if (c16_apply ("setall", 1, &a, &r))
+        vh_out ("seterr");
+      return 1;
+    }
+  if (!strcmp (tok[0], "son") && n == 4)
+    {
+      /* son <hex file name given to save_object> <zeros> <hex path (relative to the mudlib) the save must create> */
+      static char name[600], path[600];
+      size_t ln = strlen (tok[1]) / 2, lp = strlen (tok[3]) / 2;
+      static int (*ru) (const char *);
+      if (!ru)
+        ru = (int (*)(const char *)) real ("unlink");
+      ensure_obj ();
+      if (ln >= sizeof name || lp >= sizeof path || !lp)
+        return 0;
+      for (size_t i = 0; i < ln; i++)
+        name[i] = (char) (hexv (tok[1][2 * i]) * 16 + hexv (tok[1][2 * i + 1]));
+      name[ln] = 0;
+      for (size_t i = 0; i < lp; i++)
+        path[i] = (char) (hexv (tok[3][2 * i]) * 16 + hexv (tok[3][2 * i + 1]));
+      path[lp] = 0;
+      ru (path);
+      c16_savename = name;
+      int r = call_so (atoi (tok[2]));
+      c16_savename = SAVE_LPC;
+      struct stat st;
+      vh_out ("so %d made=%d", r, stat (path, &st) == 0);
+      ru (path);
+      return 1;
+    }
   if (!strcmp (tok[0], "so") && n == 2)
     {
       ensure_obj ();
@@ -872,7 +929,7 @@ static int c16_cmd (char *line)
       reset_files (0, 0);
       return 1;
     }
-  if (!strcmp (tok[0], "ro") && n == 2)
+  if ((!strcmp (tok[0], "ro") && n == 2) || (!strcmp (tok[0], "rox") && n == 3))	/* rox <noclear> <expected vars>: for the oracle */
     {
       svalue_t a[2], r;
       ensure_obj ();
